@@ -336,6 +336,11 @@ STD_ACCEPTED_SHAPES = [
     ('Clone, Debug, Default, PartialEq, Eq, PartialOrd, Ord, Hash', 'pub struct X<T>(pub T, pub u8) where Self: Sized, T: Copy;'),
     ('Clone, Debug, PartialEq, Eq, Hash', 'pub enum X<T> where Self: ::core::marker::Send { A(T), B { x: u8 } }'),
     ('Debug, PartialEq, Eq, PartialOrd, Ord, Hash', '#[allow(unused_parens)] pub struct X { pub a: u8, pub b: (str) }'),
+    # KNOWN FINDINGS (known_findings.json): a field or variant that is configured out (the attribute macro sees the item before
+    # `cfg` is evaluated; through `#[derive(Ex)]` the same item compiles), and a packed struct with a field wider than a byte
+    ('Clone, Debug', 'pub struct X { #[cfg(any())] pub a: Missing, pub b: u8 }'),
+    ('Clone, Debug, PartialEq', 'pub enum X { #[cfg(any())] A(Missing), B(u8) }'),
+    ('Clone, Copy, Debug, PartialEq', '#[repr(packed)] pub struct X(pub u8, pub u32);'),
 ]
 
 
